@@ -172,6 +172,19 @@ func zzC09(kind int, nwords int, T int) {
 	zzReach("end")
 }
 
+func zzC09LoopWorker(in chan int, out chan int, st *int) {
+	for {
+		v := <-in
+		if v > 3 {
+			out <- 1
+			*st += v
+			continue
+		}
+		*st += 1
+		out <- 2
+	}
+}
+
 // zzC09Race: runs whose only obligations are the engine's happens-before race obligations (symgo/race.go).
 //
 // shape 0: one VM, two unbonded processors over the C09 opcode set.
@@ -179,6 +192,7 @@ func zzC09(kind int, nwords int, T int) {
 // shape 2: two simulations of two machines, each stepped by its own goroutine (what cmd/simfinetune's workers do).
 // shape 3: as shape 1 with a per-opcode delay (solver variable in 0..2) on every opcode.
 // shape 4: vacuity witness (an unsynchronised shared write in the harness itself must be reported).
+// shape 5, 6: witnesses on a worker loop that answers before / after it updates its state (see below).
 func zzC09Race(shape int, nwords int, T int) {
 	switch shape {
 	case 0:
@@ -242,6 +256,26 @@ func zzC09Race(shape int, nwords int, T int) {
 		}
 		<-done
 		<-done
+	case 5, 6:
+		// witnesses on a worker loop of the shape VM.Processor_execute has: on one arm of a branch the worker
+		// answers before it updates its state, on the other arm after. Shape 5 reads the state right after the
+		// answer (a race exactly on the first arm: must be reported), shape 6 only after the next exchange
+		// (ordered on both arms: must not be reported).
+		in := make(chan int)
+		out := make(chan int)
+		st := new(int)
+		go zzC09LoopWorker(in, out, st)
+		a := int(zzNondetU8("a"))
+		in <- a
+		<-out
+		x := 0
+		if shape == 5 {
+			x = *st
+		}
+		in <- 1
+		<-out
+		x += *st
+		_ = x
 	case 2:
 		d0 := zzC09Domain("prog0", nwords)
 		d1 := zzC09Domain("prog1", nwords)
